@@ -1,3 +1,479 @@
 package main
 
-func cmdCheck(args []string) {}
+import (
+	"encoding/json"
+	"flag"
+	"fmt"
+	"os"
+	"os/exec"
+	"path/filepath"
+	"sort"
+	"strconv"
+	"strings"
+	"time"
+)
+
+// ---------------------------------------------------------------------------------------------
+// Property checks: obligation closure, known findings, bounded stand-ins, evidence
+// ---------------------------------------------------------------------------------------------
+
+type PropSpec struct {
+	ID          string   `json:"id"`
+	Roots       []string `json:"roots"`        // unit patterns
+	Lemmas      []string `json:"lemmas"`       // lemma name patterns proved for this property
+	Tags        bool     `json:"tags_only"`    // unused
+	Bounded     []RacRef `json:"bounded"`      // bounded stand-ins (Go tests in /verif/rac)
+	Assumptions []string `json:"assumptions"`  // stated, unchecked
+	PaperLemmas []string `json:"paper_lemmas"` // code-independent lemmas argued on paper
+	Level       string   `json:"level"`        // level claimed in MANIFEST ("proof" | "other")
+	Explanation string   `json:"explanation"`
+	SkipKinds   []string `json:"skip_kinds"`
+}
+
+type RacRef struct {
+	Test  string `json:"test"`  // go test -run pattern
+	What  string `json:"what"`  // which clause / function it stands in for
+	Bound string `json:"bound"` // stated bound
+}
+
+type KnownFinding struct {
+	Property   string `json:"property"`
+	Obligation string `json:"obligation"` // obligation name, or rac:<test>:<case-key>
+	What       string `json:"what"`
+	Status     string `json:"status"` // "open" | "fixed"
+	Commit     string `json:"commit,omitempty"`
+	Defect     string `json:"defect,omitempty"`
+}
+
+type Evidence struct {
+	PropertyID  string         `json:"property_id"`
+	Tier        string         `json:"tier"`
+	Seed        int            `json:"seed"`
+	Level       string         `json:"level"`
+	Coverage    map[string]any `json:"coverage"`
+	Assumptions []string       `json:"assumptions"`
+	WallS       float64        `json:"wall_s"`
+	Violations  int            `json:"violations"`
+}
+
+func verifDir() string {
+	if d := os.Getenv("VERIF_DIR"); d != "" {
+		return d
+	}
+	return "/verif"
+}
+
+func loadJSON(path string, v any) error {
+	b, err := os.ReadFile(path)
+	if err != nil {
+		return err
+	}
+	return json.Unmarshal(b, v)
+}
+
+func cmdCheck(args []string) {
+	fs := flag.NewFlagSet("check", flag.ExitOnError)
+	repo := fs.String("repo", "/repo", "repository root")
+	prop := fs.String("prop", "", "property id")
+	tier := fs.String("tier", "quick", "quick|thorough")
+	noRac := fs.Bool("norac", false, "skip bounded stand-ins")
+	updateBaseline := fs.Bool("update-baseline", false, "rewrite the baseline of claimed obligations (only on the unchanged tree)")
+	fs.Parse(args)
+	if t := os.Getenv("VERIF_TIER"); t != "" && *tier == "" {
+		*tier = t
+	}
+	seed := 1
+	if s := os.Getenv("VERIF_SEED"); s != "" {
+		if n, err := strconv.Atoi(s); err == nil {
+			seed = n
+		}
+	}
+	t0 := time.Now()
+	vd := verifDir()
+	var props []PropSpec
+	if err := loadJSON(filepath.Join(vd, "props.json"), &props); err != nil {
+		fmt.Fprintln(os.Stderr, "props.json:", err)
+		os.Exit(2)
+	}
+	var ps *PropSpec
+	for i := range props {
+		if props[i].ID == *prop {
+			ps = &props[i]
+		}
+	}
+	if ps == nil {
+		fmt.Fprintln(os.Stderr, "unknown property", *prop)
+		os.Exit(2)
+	}
+	var known []KnownFinding
+	loadJSON(filepath.Join(vd, "known_findings.json"), &known)
+	baseline := map[string]bool{}
+	if b, err := os.ReadFile(filepath.Join(vd, "baseline", ps.ID+".txt")); err == nil {
+		for _, l := range strings.Split(string(b), "\n") {
+			if l = strings.TrimSpace(l); l != "" {
+				baseline[l] = true
+			}
+		}
+	}
+
+	p, err := loadProgram(*repo, nil)
+	if err != nil {
+		// the tree does not load (does not compile): nothing can be decided by this family
+		fmt.Fprintln(os.Stderr, "load:", err)
+		os.Exit(2)
+	}
+	timeout := 10 * time.Second
+	if *tier == "thorough" {
+		timeout = 60 * time.Second
+	}
+	solver := newSolver(filepath.Join(vd, "out", "smt", ps.ID), timeout)
+
+	// closure of units
+	todo := p.unitsFor(ps.Roots)
+	seen := map[string]bool{}
+	var results []*UnitResult
+	var assumedUnits []string
+	var limits []string
+	var allObls []*Obligation
+	assumptions := map[string]bool{}
+	for len(todo) > 0 {
+		u := todo[0]
+		todo = todo[1:]
+		if seen[u.Name] {
+			continue
+		}
+		seen[u.Name] = true
+		if !u.HasSpec {
+			if u.Lit != nil {
+				continue // literal without its own contract: only reachable through its parent
+			}
+			limits = append(limits, u.Name+": no contract")
+			continue
+		}
+		res := verifyUnit(p, u)
+		if res.Skipped != "" {
+			assumedUnits = append(assumedUnits, u.Name+" ("+res.Skipped+")")
+			continue
+		}
+		results = append(results, res)
+		for _, l := range res.Limits {
+			limits = append(limits, u.Name+": "+l)
+		}
+		allObls = append(allObls, res.Obls...)
+		for a := range res.Run.assumps {
+			assumptions[a] = true
+		}
+		for _, c := range sortedKeys(res.Run.callees) {
+			if cu, ok := p.Units[c]; ok && !seen[c] {
+				todo = append(todo, cu)
+			}
+		}
+		for _, lit := range u.Lits {
+			if !seen[lit.Name] && lit.HasSpec {
+				todo = append(todo, lit)
+			}
+		}
+		for _, ln := range u.Uses {
+			if !seen["lemma."+ln] {
+				seen["lemma."+ln] = true
+				for _, ax := range p.Axioms {
+					if ax.Lemma && ax.Name == ln {
+						lr := verifyLemma(p, ax)
+						results = append(results, lr)
+						allObls = append(allObls, lr.Obls...)
+					}
+				}
+			}
+		}
+	}
+	for _, e := range p.SpecErr {
+		limits = append(limits, "spec: "+e)
+	}
+	outs := dischargeAll(solver, allObls, 16)
+	agg := aggregate(outs)
+
+	replayDir := filepath.Join(vd, "out", "replay")
+	os.MkdirAll(replayDir, 0o755)
+	nObl, nDis := 0, 0
+	byBackend := map[string]int{}
+	var samples []any
+	var violations []string
+	var knownHit []string
+	var undecided []string
+	var newBaseline []string
+	isKnown := func(name string) *KnownFinding {
+		for i := range known {
+			if known[i].Property == ps.ID && known[i].Obligation == name && known[i].Status == "open" {
+				return &known[i]
+			}
+		}
+		return nil
+	}
+	skip := map[string]bool{}
+	for _, k := range ps.SkipKinds {
+		skip[k] = true
+	}
+	for _, a := range agg {
+		if a.Kind == "canary" {
+			if a.Status == "vacuous" {
+				// a contradictory contract proves anything: report as a broken check, never as a pass
+				limits = append(limits, "VACUOUS: "+a.Name+" ("+a.Detail+")")
+			}
+			continue
+		}
+		if skip[a.Kind] {
+			continue
+		}
+		nObl++
+		switch a.Status {
+		case "discharged":
+			nDis++
+			for _, b := range strings.Split(a.Backend, "+") {
+				byBackend[b]++
+			}
+			newBaseline = append(newBaseline, a.Name)
+			if len(samples) < 6 && a.Kind != "frame" && a.Kind != "own" {
+				samples = append(samples, map[string]any{"obligation": a.Name, "what": a.Detail, "at": a.Pos, "backend": a.Backend, "secs": a.Secs})
+			}
+		case "failed", "unknown":
+			if kf := isKnown(a.Name); kf != nil {
+				knownHit = append(knownHit, fmt.Sprintf("KNOWN-FINDING: property=%s %s: %s", ps.ID, a.Name, kf.What))
+				continue
+			}
+			if a.Status == "unknown" && len(baseline) > 0 && !baseline[a.Name] {
+				undecided = append(undecided, a.Name+" (not in the baseline of claimed obligations; solver: unknown)")
+				continue
+			}
+			rp := filepath.Join(replayDir, ps.ID+"_"+sanitize(a.Name)+".txt")
+			found := writeReplay(rp, ps.ID, a, *repo)
+			line := fmt.Sprintf("VIOLATION property=%s replay=%s", ps.ID, rp)
+			if !found {
+				line += " no-failing-input-found"
+			}
+			violations = append(violations, line)
+		}
+	}
+	sort.Strings(newBaseline)
+
+	// bounded stand-ins
+	var boundedReports []map[string]any
+	if !*noRac {
+		for _, b := range ps.Bounded {
+			rep := runRac(vd, *repo, ps.ID, b, *tier, seed, known)
+			boundedReports = append(boundedReports, rep.summary)
+			knownHit = append(knownHit, rep.known...)
+			violations = append(violations, rep.violations...)
+		}
+	}
+
+	if *updateBaseline {
+		os.MkdirAll(filepath.Join(vd, "baseline"), 0o755)
+		os.WriteFile(filepath.Join(vd, "baseline", ps.ID+".txt"), []byte(strings.Join(newBaseline, "\n")+"\n"), 0o644)
+	}
+
+	// evidence
+	var unitNames []string
+	for _, r := range results {
+		unitNames = append(unitNames, r.Unit.Name)
+	}
+	sort.Strings(unitNames)
+	sort.Strings(assumedUnits)
+	var asm []string
+	asm = append(asm, ps.Assumptions...)
+	for _, a := range sortedKeys(assumptions) {
+		asm = append(asm, a)
+	}
+	for _, a := range assumedUnits {
+		asm = append(asm, "assumed contract (body not verified): "+a)
+	}
+	for _, l := range ps.PaperLemmas {
+		asm = append(asm, "paper lemma: "+l)
+	}
+	asm = append(asm, "int is modelled as mathematical integers (no overflow); float64 as reals with uninterpreted transcendental functions (no rounding, NaN or Inf beyond the 'def' obligations)")
+	level := "other"
+	if ps.Level == "proof" && nDis == nObl && len(ps.Bounded) == 0 && len(limits) == 0 {
+		level = "proof"
+	}
+	if len(samples) == 0 {
+		samples = append(samples, "no obligation discharged")
+	}
+	ev := Evidence{PropertyID: ps.ID, Tier: *tier, Seed: seed, Level: level, Assumptions: asm, WallS: time.Since(t0).Seconds(), Violations: len(violations)}
+	ev.Coverage = map[string]any{
+		"obligations":             nObl,
+		"discharged":              nDis,
+		"discharged_by_backend":   byBackend,
+		"solver_seconds":          solver.totalSecs,
+		"solver_calls":            solver.counts,
+		"checker_cmd":             fmt.Sprintf("/verif/check %s %s  (qv: weakest-precondition style symbolic execution of /repo's typed AST against the contracts in *_verif.go; z3 4.8.12, z3-new 5.1.0, cvc5 1.0 raced per obligation)", ps.ID, *tier),
+		"trusted_base":            []string{"qv (VC generator, SMT prelude / domain axioms)", "z3 4.8.12, z3 5.1.0, cvc5 1.0", "Go type checker (go/types via x/tools v0.29.0)"},
+		"functions_under_contract": unitNames,
+		"functions_count":         len(unitNames),
+		"assumed_contracts":       assumedUnits,
+		"tool_limits":             limits,
+		"undecided_not_claimed":   undecided,
+		"known_findings_hit":      knownHit,
+		"bounded":                 boundedReports,
+		"samples":                 samples,
+		"explanation":             ps.Explanation,
+		"evaluations":             nObl,
+		"distinct_nontrivial":     nDis,
+		"rule":                    "one evaluation = one named proof obligation generated from the current source (path instances of the same site are merged); non-trivial = discharged by a solver or by the static ownership/frame analysis",
+	}
+	os.MkdirAll(filepath.Join(vd, "evidence"), 0o755)
+	b, _ := json.MarshalIndent(ev, "", " ")
+	os.WriteFile(filepath.Join(vd, "evidence", ps.ID+".json"), b, 0o644)
+
+	for _, k := range knownHit {
+		fmt.Println(k)
+	}
+	for _, l := range limits {
+		fmt.Println("NOTE:", l)
+	}
+	fmt.Printf("property %s tier=%s: %d units, %d obligations, %d discharged, %d undecided-not-claimed, %d violations, %.1fs\n", ps.ID, *tier, len(unitNames), nObl, nDis, len(undecided), len(violations), time.Since(t0).Seconds())
+	for _, v := range violations {
+		fmt.Println(v)
+	}
+	if len(violations) > 0 {
+		os.Exit(1)
+	}
+	for _, l := range limits {
+		if strings.HasPrefix(l, "VACUOUS") {
+			fmt.Println("check is broken: vacuous contract")
+			os.Exit(3)
+		}
+	}
+}
+
+// writeReplay writes the replay file of a failed obligation. It returns true when a concrete failing input was
+// produced and confirmed against the real code.
+func writeReplay(path, prop string, a *AggOutcome, repo string) bool {
+	var b strings.Builder
+	fmt.Fprintf(&b, "property: %s\nobligation: %s\nkind: %s\nat: %s\nwhat: %s\nsolver status: %s (%s)\npath: %s\n", prop, a.Name, a.Kind, a.Pos, a.Detail, a.Status, a.Backend, strings.Join(a.Trace, " "))
+	fmt.Fprintf(&b, "\n--- solver output ---\n%s\n", strings.TrimSpace(a.Output))
+	if a.Model != "" {
+		fmt.Fprintf(&b, "\n--- model (values of the function's inputs) ---\n%s\n", strings.TrimSpace(a.Model))
+	}
+	confirmed := false
+	if a.Witness != nil && a.Model != "" {
+		if rep, ok := replayModel(a, repo); rep != "" {
+			fmt.Fprintf(&b, "\n--- replay against the real code ---\n%s\n", rep)
+			confirmed = ok
+		}
+	}
+	if !confirmed {
+		fmt.Fprintf(&b, "\nno-failing-input-found: the obligation was discharged on the unchanged tree and is not discharged now; no concrete input was replayed\n")
+	}
+	os.WriteFile(path, []byte(b.String()), 0o644)
+	return confirmed
+}
+
+type racReport struct {
+	summary    map[string]any
+	violations []string
+	known      []string
+}
+
+// runRac runs a bounded stand-in: a Go test in /verif/rac (module with `replace => repo`).
+func runRac(vd, repo, prop string, b RacRef, tier string, seed int, known []KnownFinding) racReport {
+	rep := racReport{summary: map[string]any{"test": b.Test, "stands_in_for": b.What, "bound": b.Bound, "label": "bounded"}}
+	dir, err := prepareRacModule(vd, repo)
+	if err != nil {
+		rep.summary["error"] = err.Error()
+		rep.violations = append(rep.violations, fmt.Sprintf("VIOLATION property=%s replay=%s no-failing-input-found", prop, "rac-setup-failed"))
+		return rep
+	}
+	defer os.RemoveAll(dir)
+	outFile := filepath.Join(dir, "rac_out.jsonl")
+	cmd := exec.Command("go", "test", "-vet=off", "-count=1", "-timeout", "20m", "-run", "^"+b.Test+"$", ".")
+	cmd.Dir = dir
+	cmd.Env = append(os.Environ(), "GOFLAGS=-mod=mod", "GOPROXY=off", "GOSUMDB=off", "GOTOOLCHAIN=local", "VERIF_TIER="+tier, fmt.Sprintf("VERIF_SEED=%d", seed), "RAC_OUT="+outFile)
+	t0 := time.Now()
+	out, _ := cmd.CombinedOutput()
+	rep.summary["wall_s"] = time.Since(t0).Seconds()
+	data, _ := os.ReadFile(outFile)
+	cases, fails := 0, 0
+	var sample []any
+	for _, l := range strings.Split(string(data), "\n") {
+		if strings.TrimSpace(l) == "" {
+			continue
+		}
+		var rec map[string]any
+		if json.Unmarshal([]byte(l), &rec) != nil {
+			continue
+		}
+		switch rec["type"] {
+		case "summary":
+			if n, ok := rec["cases"].(float64); ok {
+				cases += int(n)
+			}
+			if s, ok := rec["samples"].([]any); ok && len(sample) < 4 {
+				sample = append(sample, s...)
+			}
+		case "fail":
+			fails++
+			key, _ := rec["key"].(string)
+			name := "rac:" + b.Test + ":" + key
+			matched := false
+			for i := range known {
+				if known[i].Property == prop && known[i].Status == "open" && (known[i].Obligation == name || (strings.HasSuffix(known[i].Obligation, "*") && strings.HasPrefix(name, strings.TrimSuffix(known[i].Obligation, "*")))) {
+					rep.known = append(rep.known, fmt.Sprintf("KNOWN-FINDING: property=%s %s: %s", prop, name, known[i].What))
+					matched = true
+					break
+				}
+			}
+			if matched {
+				continue
+			}
+			rp := filepath.Join(vd, "out", "replay", prop+"_"+sanitize(name)+".json")
+			rb, _ := json.MarshalIndent(rec, "", " ")
+			os.WriteFile(rp, rb, 0o644)
+			if len(rep.violations) < 5 {
+				rep.violations = append(rep.violations, fmt.Sprintf("VIOLATION property=%s replay=%s", prop, rp))
+			}
+		}
+	}
+	rep.summary["cases"] = cases
+	rep.summary["failures"] = fails
+	rep.summary["samples"] = sample
+	if cases == 0 {
+		rep.summary["error"] = "bounded stand-in produced no cases: " + lastLines(string(out), 12)
+		rp := filepath.Join(vd, "out", "replay", prop+"_"+sanitize(b.Test)+"_broken.txt")
+		os.WriteFile(rp, out, 0o644)
+		rep.violations = append(rep.violations, fmt.Sprintf("VIOLATION property=%s replay=%s no-failing-input-found", prop, rp))
+	}
+	return rep
+}
+
+func lastLines(s string, n int) string {
+	ls := strings.Split(strings.TrimSpace(s), "\n")
+	if len(ls) > n {
+		ls = ls[len(ls)-n:]
+	}
+	return strings.Join(ls, " | ")
+}
+
+// prepareRacModule copies /verif/rac into a scratch directory with a go.mod that replaces qeep by repo.
+func prepareRacModule(vd, repo string) (string, error) {
+	dir, err := os.MkdirTemp("", "qvrac")
+	if err != nil {
+		return "", err
+	}
+	src := filepath.Join(vd, "rac")
+	ents, err := os.ReadDir(src)
+	if err != nil {
+		return dir, err
+	}
+	for _, e := range ents {
+		if e.IsDir() || !strings.HasSuffix(e.Name(), ".go") {
+			continue
+		}
+		b, _ := os.ReadFile(filepath.Join(src, e.Name()))
+		os.WriteFile(filepath.Join(dir, e.Name()), b, 0o644)
+	}
+	gomod := "module rac\n\ngo 1.22\n\nrequire github.com/sahandsafizadeh/qeep v0.0.0\n\nrequire (\n\tgolang.org/x/exp v0.0.0-20231110203233-9a3e6036ecaa // indirect\n\tgonum.org/v1/gonum v0.15.1 // indirect\n)\n\nreplace github.com/sahandsafizadeh/qeep => " + repo + "\n"
+	os.WriteFile(filepath.Join(dir, "go.mod"), []byte(gomod), 0o644)
+	if b, err := os.ReadFile(filepath.Join(repo, "go.sum")); err == nil {
+		os.WriteFile(filepath.Join(dir, "go.sum"), b, 0o644)
+	}
+	return dir, nil
+}
